@@ -276,6 +276,10 @@ class MessageHeader:
                              (self.payload_size_bytes, MessageHeader._MAX_EXPECTED_SIZE_BYTES))
 
         message_size_bytes = MessageHeader._SIZE + self.payload_size_bytes
+        if len(buffer) < offset + message_size_bytes:
+            raise ValueError('Not enough data to validate CRC. [message_size=%d B, available=%d B]' %
+                             (message_size_bytes, len(buffer) - offset))
+
         crc = crc32(buffer[(offset + 8):(offset + message_size_bytes)])
         if crc != self.crc:
             raise ValueError('CRC mismatch. [type=%s, payload_size=%d B, expected=0x%08x, computed=0x%08x]' %
